@@ -101,10 +101,10 @@ static inline std::string vstr(long double v) { char b[96]; snprintf(b, sizeof b
 // guarded execution: fatal signals and the watchdog jump back to the innermost armed guard
 // ---------------------------------------------------------------------------------------------
 struct GuardState {
-    sigjmp_buf* cur = nullptr;
+    sigjmp_buf* volatile cur = nullptr;  // volatile: read by signal handlers; the store must not be sunk past a non-returning callee
     volatile uint64_t progress = 0;      // bumped by the harness at every point
-    uint64_t last_seen = 0;
-    int idle_ticks = 0;
+    volatile uint64_t last_seen = 0;
+    volatile int idle_ticks = 0;
     int hang_ticks = 8;                  // x 250 ms = 2 s
     volatile int fired_sig = 0;
 };
@@ -117,7 +117,8 @@ static void on_fatal(int sig) {
 }
 static void on_tick(int) {
     if (g_guard.progress != g_guard.last_seen) { g_guard.last_seen = g_guard.progress; g_guard.idle_ticks = 0; return; }
-    if (++g_guard.idle_ticks >= g_guard.hang_ticks) {
+    g_guard.idle_ticks = g_guard.idle_ticks + 1;
+    if (g_guard.idle_ticks >= g_guard.hang_ticks) {
         g_guard.idle_ticks = 0;
         if (g_guard.cur) { g_guard.fired_sig = SIGALRM; siglongjmp(*g_guard.cur, SIGALRM); }
     }
@@ -131,10 +132,12 @@ static inline void install_handlers() {
     sigaction(SIGFPE, &sa, nullptr);  sigaction(SIGILL, &sa, nullptr);
     struct sigaction st; memset(&st, 0, sizeof st);
     st.sa_handler = on_tick; st.sa_flags = SA_NODEFER | SA_RESTART;
-    sigaction(SIGALRM, &st, nullptr);
+    // the watchdog counts the process's own CPU time (ITIMER_PROF), not wall-clock time: a point that makes no progress for
+    // hang_ticks x 250 ms of CPU is a loop in the code under test; a loaded machine cannot produce a false hang
+    sigaction(SIGPROF, &st, nullptr);
     const char* hl = getenv("FX_HANG_TICKS"); if (hl) g_guard.hang_ticks = atoi(hl);
     struct itimerval it; it.it_interval.tv_sec = 0; it.it_interval.tv_usec = 250000; it.it_value = it.it_interval;
-    setitimer(ITIMER_REAL, &it, nullptr);
+    setitimer(ITIMER_PROF, &it, nullptr);
 }
 // run f(); returns 0 if it returned, the signal number otherwise (SIGALRM = hang)
 template <class F> static FX_NOINLINE int guarded(F&& f) {
